@@ -53,10 +53,13 @@ def _size(rng, tier):
     return rng.randint(1, 8), rng.randint(1, 12)
 
 
-def _gen_render(rng, h, w, prev, oversize):
-    """prev: previous judged rows (list of row specs) or None"""
+def _gen_render(rng, h, w, prev, oversize, prev2=None):
+    """prev: previous judged rows (list of row specs) or None; prev2: the frame before that"""
     r = rng.random()
     rows = None
+    if prev2 is not None and r > 0.93:
+        rows = [planmod.clone(x) for x in prev2]          # A, B, A: the frame before the last one comes back
+        r = 1.0
     if prev is not None and r < 0.55:
         rows = [planmod.clone(x) for x in prev]
         k = rng.random()
@@ -100,6 +103,7 @@ def _gen_render(rng, h, w, prev, oversize):
     if rng.random() < 0.2:
         cursor = [h - 1, w - 1]
     return {"op": "render", "rows": rows, "cursor": cursor, "fsarray": rng.random() < 0.3,
+            "fs_width": rng.choice((w, w, max(1, w - 2), w + 1, w + 5)),      # an FSArray's own width need not be the terminal's
             "reuse_object": rng.random() < 0.3}
 
 
@@ -114,10 +118,11 @@ def gen_plan(seed, tier, index=0, avoid=()):
            "out_buffer": rng.choice(("none", "line", "block", "block"))}
     steps = []
     prev = None
+    prev2 = None
     last_rendered = None
     cur = (h, w)
     for _ in range(nsteps):
-        if faults["resize"] and last_rendered is not None and rng.random() < 0.2:
+        if faults["resize"] and (last_rendered is not None or rng.random() < 0.3) and rng.random() < 0.2:
             for _t in range(20):
                 nh, nw = _size(rng, tier)
                 if (nh, nw) != last_rendered:
@@ -129,7 +134,7 @@ def gen_plan(seed, tier, index=0, avoid=()):
             cur = (nh, nw)
             prev = None if rng.random() < 0.5 else prev
             continue
-        st = _gen_render(rng, cur[0], cur[1], prev, oversize)
+        st = _gen_render(rng, cur[0], cur[1], prev, oversize, prev2)
         if prev is not None and (len(prev) > cur[0] or any(gen.row_len(x) > cur[1] for x in prev)) and not oversize:
             st = _gen_render(rng, cur[0], cur[1], None, oversize)
         last_rendered = cur
@@ -140,11 +145,12 @@ def gen_plan(seed, tier, index=0, avoid=()):
                     break
             else:
                 nh, nw = cur[0] + 1, cur[1]
-            st["mid"] = {"at_write": rng.randint(1, 12), "h": nh, "w": nw, "junk": rng.getrandbits(32),
+            st["mid"] = {"at_write": rng.choice((rng.randint(1, 12), rng.randint(1, 40))), "h": nh, "w": nw, "junk": rng.getrandbits(32),
                          "cursor": [rng.randrange(nh), rng.randrange(nw)]}
             cur = (nh, nw)
             prev = None
         else:
+            prev2 = prev
             prev = st["rows"]
         steps.append(st)
     return {"prop": PROP, "seed": seed, "cfg": cfg, "steps": steps}
@@ -312,7 +318,7 @@ def _execute(p, world, term, out, res):
                 continue
             h, w = term.h, term.w
             rows = st["rows"]
-            arr = gen.build_array(rows, st.get("fsarray"), w, last_arr if st.get("reuse_object") else None)
+            arr = gen.build_array(rows, st.get("fsarray"), st.get("fs_width", w), last_arr if st.get("reuse_object") else None)
             if arr is last_arr:
                 world.probe("same_object_rendered_again")
             last_arr = arr
